@@ -634,16 +634,16 @@ def main(tier):
                        'the behavioural statement (output decodes to input) is not decided.')
     rep.trusted = ['clang 14 / nasm constant evaluation', 'checker RFC 1951 reference tools/rfc1951.py']
     rep.analysed = dict(configurations=CONFIGS, units=['igzip/hufftables_c.c', 'igzip/huff_codes.c', 'igzip/rfc1951_lookup.asm', 'igzip/data_struct2.asm', 'igzip/lz0a_const.asm', 'igzip/options.asm', 'include/igzip_lib.h'])
-    check_rfc_tables(rep)
-    check_rfc_copies(rep)
-    check_cmp_units(rep)
+    rep.attempt(check_rfc_tables, rep)
+    rep.attempt(check_rfc_copies, rep)
+    rep.attempt(check_cmp_units, rep)
     import c18, llir
     Ku, _d = mirror.c_values('default', ['huff_codes.h', 'bitbuf2.h', 'igzip_lib.h'], [(n, n) for n in ('MAX_BITBUF_BIT_WRITE', 'DIST_LEN', 'LIT_LEN')], 'c01_useable')
-    c18.check_useable_schedule(rep, llir.library('default'), Ku)
-    check_construn(rep, llir.library('default'))
-    check_df_lane_limits(rep)
+    rep.attempt(c18.check_useable_schedule, rep, llir.library('default'), Ku)
+    rep.attempt(check_construn, rep, llir.library('default'))
+    rep.attempt(check_df_lane_limits, rep)
     import stridecover
-    stridecover.check(rep, 'DEFLATE', {'igzip_deflate', 'igzip_histogram', 'igzip_set_long', 'igzip_encode_df', 'igzip_hash'}, 100, lookahead=True)
+    rep.attempt(stridecover.check, rep, 'DEFLATE', {'igzip_deflate', 'igzip_histogram', 'igzip_set_long', 'igzip_encode_df', 'igzip_hash'}, 100, lookahead=True)
     for c in CONFIGS:
         lay = hufftables_layout(c)
         unpack = unpack_consts(c)
